@@ -190,6 +190,45 @@ func vrpNavigate(t *testing.T) {
 			break
 		}
 	}
+	// a key of type string may be empty: the empty element names that key level like any other value, in both forms of
+	// the lookup (only "." and ".." are steps)
+	{
+		root2, err := NewTreeRoot(ctx, NewTreeContext(NewTreeCacheClient("dev1", cacheClient), scb, "owner1"))
+		if err != nil {
+			t.Fatal(err)
+		}
+		for _, kk := range [][2]string{{"", "x"}, {"x", "mandato"}, {"x", ""}} {
+			b, _ := proto.Marshal(&sdcpb.TypedValue{Value: &sdcpb.TypedValue_StringVal{StringVal: "m-" + kk[0] + "-" + kk[1]}})
+			if _, err := root2.AddCacheUpdateRecursive(ctx, cache.NewUpdate([]string{"doublekey", kk[0], kk[1], "mandato"}, b, 5, "owner1", 0), flags); err != nil {
+				t.Fatal(err)
+			}
+		}
+		root2.FinishInsertionPhase(ctx)
+		for _, kk := range [][2]string{{"", "x"}, {"x", ""}} {
+			n++
+			want := "doublekey/" + kk[0] + "/" + kk[1] + "/mandato"
+			e, err := root2.NavigateSdcpbPath(ctx, vrpPath("doublekey", map[string]string{"key1": kk[0], "key2": kk[1]}, "mandato").Elem, true)
+			if err != nil || e == nil || strings.Join(e.Path(), "/") != want {
+				got := "<nil>"
+				if e != nil {
+					got = strings.Join(e.Path(), "/")
+				}
+				for _, f := range []string{fnN, "(*tree.sharedEntryAttributes).Navigate"} {
+					fmt.Printf("REPLAY-FAIL fn=%s clause=lookup_ends_at_the_named_entry input=tree holds doublekey entries (\"\",x), (x,mandato), (x,\"\"), lookup of doublekey[key1=%q][key2=%q]/mandato why=ended at %s (err %v)\n", f, kk[0], kk[1], got, err)
+				}
+			}
+			n++
+			e, err = root2.Navigate(ctx, []string{"doublekey", kk[0], kk[1], "mandato"}, true)
+			if err != nil || e == nil || strings.Join(e.Path(), "/") != want {
+				got := "<nil>"
+				if e != nil {
+					got = strings.Join(e.Path(), "/")
+				}
+				fmt.Printf("REPLAY-FAIL fn=%s clause=lookup_ends_at_the_named_entry input=tree holds doublekey entries (\"\",x), (x,mandato), (x,\"\"), lookup of the element sequence [doublekey %q %q mandato] why=ended at %s (err %v)\n", "(*tree.sharedEntryAttributes).Navigate", kk[0], kk[1], got, err)
+			}
+		}
+		fmt.Printf("REPLAY-CASES fn=%s n=%d\n", "(*tree.sharedEntryAttributes).Navigate", 4)
+	}
 	// a '.' step stays where it is
 	n++
 	if e, err := root.NavigateSdcpbPath(ctx, []*sdcpb.PathElem{{Name: "."}, {Name: "doublekey"}}, true); err != nil || e == nil || strings.Join(e.Path(), "/") != "doublekey" {
